@@ -354,7 +354,7 @@ theorem group_reaches_only_member_endpoints (fabrics : List Fabric) (a : Accesso
     simp [this, hm]
 
 /-- the "only" direction needs no well-formedness at all -/
-theorem group_reaches_only_member_endpoints' (fabrics : List Fabric) (a : Accessor) (ep : Nat)
+theorem group_reach_implies_member (fabrics : List Fabric) (a : Accessor) (ep : Nat)
     (hm : a.authMode = some AuthMode.group) (h : isEndpointAccessible fabrics a ep = true) :
     ∃ f ∈ fabrics, f.fabIdx = a.fabIdx ∧ ∃ g ∈ f.groups,
       g.groupId = (a.subjects.headD 0) % 65536 ∧ ep ∈ g.endpoints := by
@@ -375,5 +375,374 @@ theorem group_reaches_only_member_endpoints' (fabrics : List Fabric) (a : Access
         rw [hgg] at h
         simp only [List.contains_eq_mem, decide_eq_true_iff] at h
         exact ⟨f, hf, hi, g, hgm, hgid, h⟩
+
+
+/-! ## the configuration operations preserve well-formedness -/
+
+theorem wf_nil : WF [] := ⟨by simp, by simp, by simp⟩
+
+theorem foldl_max_ge (l : List Nat) (a : Nat) : a ≤ l.foldl max a ∧ ∀ x ∈ l, x ≤ l.foldl max a := by
+  induction l generalizing a with
+  | nil => simp
+  | cons y ys ih =>
+    simp only [List.foldl_cons, List.mem_cons]
+    obtain ⟨h1, h2⟩ := ih (max a y)
+    refine ⟨by omega, ?_⟩
+    rintro x (rfl | hx)
+    · omega
+    · exact h2 x hx
+
+theorem nextFabIdx_fresh {fabrics : List Fabric} {i : Nat} (h : nextFabIdx fabrics = some i) :
+    ∀ f ∈ fabrics, f.fabIdx ≠ i := by
+  unfold nextFabIdx at h
+  simp only at h
+  split at h
+  · injection h with h
+    intro f hf
+    have := (foldl_max_ge (fabrics.map (·.fabIdx)) 0).2 f.fabIdx (List.mem_map.mpr ⟨f, hf, rfl⟩)
+    omega
+  · have := List.find?_some h
+    simp only [List.all_eq_true, bne_iff_ne, ne_eq] at this
+    exact this
+
+theorem wf_fabricsAdd {fabrics fabrics' : List Fabric} {i : Nat} (hwf : WF fabrics)
+    (h : fabricsAdd fabrics = some (fabrics', i)) : WF fabrics' := by
+  unfold fabricsAdd at h
+  cases hn : nextFabIdx fabrics with
+  | none => simp [hn] at h
+  | some j =>
+    simp only [hn] at h
+    split at h
+    · injection h with h
+      injection h with h1 h2
+      subst h1
+      have hfresh := nextFabIdx_fresh hn
+      refine ⟨?_, ?_, ?_⟩
+      · rw [List.map_append, List.nodup_append]
+        refine ⟨hwf.distinct, by simp, ?_⟩
+        intro a ha b hb
+        simp only [List.map_cons, List.map_nil, List.mem_singleton] at hb
+        obtain ⟨f, hf, rfl⟩ := List.mem_map.mp ha
+        rw [hb]; exact hfresh f hf
+      · intro f hf
+        rcases List.mem_append.mp hf with hf | hf
+        · exact hwf.stamped f hf
+        · simp only [List.mem_singleton] at hf; subst hf; simp
+      · intro f hf
+        rcases List.mem_append.mp hf with hf | hf
+        · exact hwf.groupsDistinct f hf
+        · simp only [List.mem_singleton] at hf; subst hf; simp
+    · cases h
+
+theorem wf_fabricsRemove {fabrics fabrics' : List Fabric} {i : Nat} (hwf : WF fabrics)
+    (h : fabricsRemove fabrics i = some fabrics') : WF fabrics' := by
+  unfold fabricsRemove at h
+  split at h
+  · cases h
+  · injection h with h
+    subst h
+    refine ⟨?_, ?_, ?_⟩
+    · exact List.Nodup.sublist (List.Sublist.map _ List.filter_sublist) hwf.distinct
+    · intro f hf; exact hwf.stamped f (List.mem_filter.mp hf).1
+    · intro f hf; exact hwf.groupsDistinct f (List.mem_filter.mp hf).1
+
+theorem fabricsUpdate_map (fabrics : List Fabric) (i : Nat) (g : Fabric → Fabric)
+    (hg : ∀ f ∈ fabrics, f.fabIdx = i → (g f).fabIdx = i) :
+    (fabricsUpdate fabrics i g).map (·.fabIdx) = fabrics.map (·.fabIdx) := by
+  induction fabrics with
+  | nil => rfl
+  | cons x xs ih =>
+    unfold fabricsUpdate
+    by_cases hx : x.fabIdx = i
+    · have : (x.fabIdx == i) = true := by simp [hx]
+      simp only [this, if_true, List.map_cons]
+      rw [hg x (by simp) hx, hx]
+    · have : (x.fabIdx == i) = false := by simp [hx]
+      simp only [this, Bool.false_eq_true, if_false, List.map_cons]
+      rw [ih (fun f hf => hg f (List.mem_cons_of_mem _ hf))]
+
+theorem mem_fabricsUpdate {fabrics : List Fabric} {i : Nat} {g : Fabric → Fabric} {f' : Fabric}
+    (h : f' ∈ fabricsUpdate fabrics i g) : f' ∈ fabrics ∨ ∃ f ∈ fabrics, f.fabIdx = i ∧ f' = g f := by
+  induction fabrics with
+  | nil => cases h
+  | cons x xs ih =>
+    unfold fabricsUpdate at h
+    by_cases hx : x.fabIdx = i
+    · have : (x.fabIdx == i) = true := by simp [hx]
+      simp only [this, if_true, List.mem_cons] at h
+      rcases h with rfl | h
+      · exact Or.inr ⟨x, by simp, hx, rfl⟩
+      · exact Or.inl (List.mem_cons_of_mem _ h)
+    · have : (x.fabIdx == i) = false := by simp [hx]
+      simp only [this, Bool.false_eq_true, if_false, List.mem_cons] at h
+      rcases h with rfl | h
+      · exact Or.inl (by simp)
+      · rcases ih h with h | ⟨f, hf, hi, he⟩
+        · exact Or.inl (List.mem_cons_of_mem _ h)
+        · exact Or.inr ⟨f, List.mem_cons_of_mem _ hf, hi, he⟩
+
+/-- replacing the fabric with index `i` by a well-formed fabric with the same index -/
+theorem wf_fabricsUpdate_const {fabrics : List Fabric} {i : Nat} {f' : Fabric} (hwf : WF fabrics)
+    (hi : f'.fabIdx = i) (hst : ∀ e ∈ f'.acl, e.fabIdx = some f'.fabIdx)
+    (hgd : (f'.groups.map (·.groupId)).Nodup) : WF (fabricsUpdate fabrics i (fun _ => f')) := by
+  refine ⟨?_, ?_, ?_⟩
+  · rw [fabricsUpdate_map fabrics i _ (fun _ _ _ => hi)]; exact hwf.distinct
+  · intro f hf
+    rcases mem_fabricsUpdate hf with h | ⟨_, _, _, rfl⟩
+    · exact hwf.stamped f h
+    · exact hst
+  · intro f hf
+    rcases mem_fabricsUpdate hf with h | ⟨_, _, _, rfl⟩
+    · exact hwf.groupsDistinct f h
+    · exact hgd
+
+theorem aclAdd_some {f f' : Fabric} {e : Entry} {i : Nat} (h : f.aclAdd e = some (f', i)) :
+    f'.fabIdx = f.fabIdx ∧ f'.groups = f.groups ∧ f'.acl = f.acl ++ [{ e with fabIdx := some f.fabIdx }] := by
+  unfold Fabric.aclAdd at h
+  split at h
+  · cases h
+  · split at h
+    · injection h with h; injection h with h1 h2
+      subst h1; exact ⟨rfl, rfl, rfl⟩
+    · cases h
+
+theorem wf_fabricsAclAdd {fabrics fabrics' : List Fabric} {fab n : Nat} {e : Entry} (hwf : WF fabrics)
+    (h : fabricsAclAdd fabrics fab e = some (fabrics', n)) : WF fabrics' := by
+  unfold fabricsAclAdd at h
+  cases hg : fabricsGet fabrics fab with
+  | none => simp [hg] at h
+  | some f =>
+    obtain ⟨hf, hi⟩ := fabricsGet_some_mem hg
+    simp only [hg] at h
+    cases ha : f.aclAdd e with
+    | none => simp [ha] at h
+    | some r =>
+      obtain ⟨f', i⟩ := r
+      simp only [ha] at h
+      injection h with h; injection h with h1 h2
+      subst h1
+      obtain ⟨a1, a2, a3⟩ := aclAdd_some ha
+      apply wf_fabricsUpdate_const hwf (a1.trans hi)
+      · intro e' he'
+        rw [a3] at he'
+        rcases List.mem_append.mp he' with he' | he'
+        · rw [a1]; exact hwf.stamped f hf e' he'
+        · simp only [List.mem_singleton] at he'; subst he'; rw [a1]
+      · rw [a2]; exact hwf.groupsDistinct f hf
+
+/-- entries added through `acl_add` keep the privileges canonical if the new one is -/
+theorem canonical_fabricsAclAdd {fabrics fabrics' : List Fabric} {fab n : Nat} {e : Entry}
+    (hc : CanonicalPrivs fabrics) (hp : ∃ p : Priv, e.privilege = p.bits)
+    (h : fabricsAclAdd fabrics fab e = some (fabrics', n)) : CanonicalPrivs fabrics' := by
+  unfold fabricsAclAdd at h
+  cases hg : fabricsGet fabrics fab with
+  | none => simp [hg] at h
+  | some f =>
+    obtain ⟨hf, hi⟩ := fabricsGet_some_mem hg
+    simp only [hg] at h
+    cases ha : f.aclAdd e with
+    | none => simp [ha] at h
+    | some r =>
+      obtain ⟨f', i⟩ := r
+      simp only [ha] at h
+      injection h with h; injection h with h1 h2
+      subst h1
+      obtain ⟨a1, a2, a3⟩ := aclAdd_some ha
+      intro f'' hf'' e' he'
+      rcases mem_fabricsUpdate hf'' with h | ⟨_, _, _, rfl⟩
+      · exact hc f'' h e' he'
+      · rw [a3] at he'
+        rcases List.mem_append.mp he' with he' | he'
+        · exact hc f hf e' he'
+        · simp only [List.mem_singleton] at he'; subst he'; exact hp
+
+
+theorem groupsAddUpd_map {gs gs' : List GroupMapping} {ep gid : Nat}
+    (h : groupsAddUpd gs ep gid = some gs') : gs'.map (·.groupId) = gs.map (·.groupId) := by
+  induction gs generalizing gs' with
+  | nil => unfold groupsAddUpd at h; injection h with h; subst h; rfl
+  | cons x xs ih =>
+    unfold groupsAddUpd at h
+    split at h
+    · split at h
+      · injection h with h; subst h; rfl
+      · split at h
+        · injection h with h; subst h; rfl
+        · cases h
+    · cases hr : groupsAddUpd xs ep gid with
+      | none => simp [hr] at h
+      | some r =>
+        simp only [hr, Option.map_some, Option.some.injEq] at h
+        subst h
+        simp [ih hr]
+
+theorem groupsAdd_nodup {gs gs' : List GroupMapping} {ep gid : Nat}
+    (hd : (gs.map (·.groupId)).Nodup) (h : groupsAdd gs ep gid = some gs') :
+    (gs'.map (·.groupId)).Nodup := by
+  unfold groupsAdd at h
+  cases hf : gs.find? (fun e => e.groupId == gid) with
+  | some g =>
+    simp only [hf] at h
+    rw [groupsAddUpd_map h]; exact hd
+  | none =>
+    simp only [hf] at h
+    split at h
+    · split at h
+      · injection h with h; subst h
+        rw [List.map_append, List.nodup_append]
+        refine ⟨hd, by simp, ?_⟩
+        intro a ha b hb
+        simp only [List.map_cons, List.map_nil, List.mem_singleton] at hb
+        obtain ⟨g, hg, rfl⟩ := List.mem_map.mp ha
+        rw [List.find?_eq_none] at hf
+        have := hf g hg
+        rw [hb]; simpa using this
+      · cases h
+    · cases h
+
+theorem groupsSetHasAux_map (gs : List GroupMapping) (gid : Nat) (v : Bool) :
+    (groupsSetHasAux gs gid v).1.map (·.groupId) = gs.map (·.groupId) := by
+  induction gs with
+  | nil => rfl
+  | cons x xs ih =>
+    unfold groupsSetHasAux
+    split
+    · rfl
+    · simp [ih]
+
+theorem wf_fabricsGroupAdd {fabrics fabrics' : List Fabric} {fab ep gid : Nat} (hwf : WF fabrics)
+    (h : fabricsGroupAdd fabrics fab ep gid = some fabrics') : WF fabrics' := by
+  unfold fabricsGroupAdd at h
+  cases hg : fabricsGet fabrics fab with
+  | none => simp [hg] at h
+  | some f =>
+    obtain ⟨hf, hi⟩ := fabricsGet_some_mem hg
+    simp only [hg] at h
+    cases ha : groupsAdd f.groups ep gid with
+    | none => simp [ha] at h
+    | some gs =>
+      simp only [ha] at h
+      injection h with h; subst h
+      exact wf_fabricsUpdate_const hwf hi (hwf.stamped f hf) (groupsAdd_nodup (hwf.groupsDistinct f hf) ha)
+
+theorem wf_fabricsSetHasAux {fabrics fabrics' : List Fabric} {fab gid : Nat} {v ch : Bool} (hwf : WF fabrics)
+    (h : fabricsSetHasAux fabrics fab gid v = some (fabrics', ch)) : WF fabrics' := by
+  unfold fabricsSetHasAux at h
+  cases hg : fabricsGet fabrics fab with
+  | none => simp [hg] at h
+  | some f =>
+    obtain ⟨hf, hi⟩ := fabricsGet_some_mem hg
+    simp only [hg] at h
+    have hm := groupsSetHasAux_map f.groups gid v
+    cases hr : groupsSetHasAux f.groups gid v with
+    | mk gs c =>
+      rw [hr] at h hm
+      cases c with
+      | none => simp at h
+      | some c =>
+        simp only [Option.some.injEq, Prod.mk.injEq] at h
+        obtain ⟨h1, _⟩ := h
+        subst h1
+        refine wf_fabricsUpdate_const hwf hi (hwf.stamped f hf) ?_
+        simp only at hm ⊢
+        rw [hm]; exact hwf.groupsDistinct f hf
+
+
+/-! ## non-vacuity: the hypotheses are satisfiable, both answers occur, and each hypothesis matters -/
+
+/-- tag identifier 1, version `v` -/
+def tag1 (v : Nat) : Nat := Consts.nocCatSubjectPrefix ||| (1 <<< 16 ||| v)
+
+/-- fabric 1: Administer for holders of tag 1 version ≥ 2 on everything; Operate for group 7 on
+endpoint 1; fabric 2: View for node 5 on cluster 6. Group 7 of fabric 1 has endpoint 1. -/
+def cfg : List Fabric :=
+  [ { fabIdx := 1,
+      acl := [ { privilege := PRIV_ADMIN, authMode := .case, subjects := some [tag1 2], targets := none, fabIdx := some 1 },
+               { privilege := PRIV_OPERATE, authMode := .group, subjects := some [7],
+                 targets := some [{ endpoint := some 1, cluster := none, deviceType := none }], fabIdx := some 1 } ],
+      groups := [ { groupId := 7, endpoints := [1], hasAuxAcl := some true } ] },
+    { fabIdx := 2,
+      acl := [ { privilege := PRIV_VIEW, authMode := .case, subjects := some [5],
+                 targets := some [{ endpoint := none, cluster := some 6, deviceType := none }], fabIdx := some 2 } ],
+      groups := [] } ]
+
+def mkReq (fab : Nat) (mode : Option AuthMode) (subjects : List Nat) (ep cl op perms : Nat) : AccessReq :=
+  { accessor := { fabIdx := fab, auxAclEnabled := false, subjects := subjects, authMode := mode },
+    object := { path := { endpoint := some ep, cluster := some cl, leaf := some 0 }, targetPerms := some perms,
+                operation := op, deviceTypes := [] } }
+
+theorem cfg_wf : WF cfg := ⟨by decide, by decide, by decide⟩
+theorem cfg_canonical : CanonicalPrivs cfg := by
+  intro f hf e he
+  simp only [cfg, List.mem_cons, List.not_mem_nil, or_false] at hf
+  rcases hf with rfl | rfl <;> simp only [List.mem_cons, List.not_mem_nil, or_false] at he
+  · rcases he with rfl | rfl
+    · exact ⟨.administer, rfl⟩
+    · exact ⟨.operate, rfl⟩
+  · subst he; exact ⟨.view, rfl⟩
+
+/-- a write of an `RWVA` attribute (needs Administer) by a holder of tag 1 version 3: granted … -/
+example : allow cfg (mkReq 1 (some .case) [9, tag1 3, 0, 0] 0 40 WRITE 57) = true := by decide
+/-- … and so says the specification, through the theorem -/
+example : Granted cfg (mkReq 1 (some .case) [9, tag1 3, 0, 0] 0 40 WRITE 57) :=
+  (allow_iff_granted cfg _ cfg_wf cfg_canonical ⟨.write, rfl⟩).mp (by decide)
+/-- version 1 < 2: denied -/
+example : allow cfg (mkReq 1 (some .case) [9, tag1 1, 0, 0] 0 40 WRITE 57) = false := by decide
+/-- the same accessor on fabric 2 (other fabric's entry does not help): denied -/
+example : allow cfg (mkReq 2 (some .case) [9, tag1 3, 0, 0] 0 40 WRITE 57) = false := by decide
+/-- node 5 of fabric 2 reads an `RV` attribute of cluster 6: granted; writes `RWVM`: denied -/
+example : allow cfg (mkReq 2 (some .case) [5, 0, 0, 0] 3 6 READ 17) = true := by decide
+example : allow cfg (mkReq 2 (some .case) [5, 0, 0, 0] 3 6 WRITE 53) = false := by decide
+/-- missing fabric 3, fabric 0: denied; PASE: granted -/
+example : allow cfg (mkReq 3 (some .case) [5, 0, 0, 0] 3 6 READ 17) = false := by decide
+example : allow cfg (mkReq 0 (some .case) [5, 0, 0, 0] 3 6 READ 17) = false := by decide
+example : allow cfg (mkReq 0 (some .pase) [1, 0, 0, 0] 3 6 READ 17) = true := by decide
+/-- hypotheses of `cat_version_monotone` are satisfiable -/
+example : IsCat (tag1 1) ∧ IsCat (tag1 3) ∧ catId (tag1 1) = catId (tag1 3) ∧
+    catVersion (tag1 1) ≤ catVersion (tag1 3) := by decide
+/-- group 7 reaches endpoint 1 and not endpoint 2 -/
+example : isEndpointAccessible cfg { fabIdx := 1, auxAclEnabled := false, subjects := [7, 0, 0, 0], authMode := some .group } 1 = true := by decide
+example : isEndpointAccessible cfg { fabIdx := 1, auxAclEnabled := false, subjects := [7, 0, 0, 0], authMode := some .group } 2 = false := by decide
+/-- `missing_fabric_denied`, `other_fabric_never_grants`: hypotheses satisfiable -/
+example : ∀ f ∈ cfg, f.fabIdx ≠ (mkReq 3 (some .case) [5, 0, 0, 0] 3 6 READ 17).accessor.fabIdx := by decide
+
+/-- `CanonicalPrivs` matters: an entry built through the Rust API with the bare `A` bit (no
+privilege of the cluster) is accepted by the code for an `RWVA` read, which the specification, which
+knows only the five privileges, does not grant. -/
+def odd : List Fabric :=
+  [ { fabIdx := 1, acl := [ { privilege := Consts.privA, authMode := .case, subjects := none, targets := none, fabIdx := some 1 } ], groups := [] } ]
+example : allow odd (mkReq 1 (some .case) [5, 0, 0, 0] 0 6 READ 57) = true ∧
+    grantedB odd (mkReq 1 (some .case) [5, 0, 0, 0] 0 6 READ 57) = false := by decide
+/-- `ReadOrWrite` matters: the operation value `READ | WRITE` is not an operation of the property -/
+example : allow cfg (mkReq 2 (some .case) [5, 0, 0, 0] 3 6 (READ ||| WRITE) 53) = true ∧
+    grantedB cfg (mkReq 2 (some .case) [5, 0, 0, 0] 3 6 (READ ||| WRITE) 53) = false := by decide
+/-- `WF.stamped` matters: an entry sitting in fabric 1's list but stamped 2 is ignored by the code -/
+def unstamped : List Fabric :=
+  [ { fabIdx := 1, acl := [ { privilege := PRIV_ADMIN, authMode := .case, subjects := none, targets := none, fabIdx := some 2 } ], groups := [] } ]
+example : allow unstamped (mkReq 1 (some .case) [5, 0, 0, 0] 0 6 READ 17) = false ∧
+    grantedB unstamped (mkReq 1 (some .case) [5, 0, 0, 0] 0 6 READ 17) = true := by decide
+
+/-- `AUXILIARY` feature on: group 7 may invoke an Operate command on its endpoint 1 through the
+synthesised entry even without a matching stored entry (cluster 99 endpoint 1 is covered by the
+stored entry too, so use a configuration without it) -/
+def cfgAux : List Fabric :=
+  [ { fabIdx := 1, acl := [ { privilege := PRIV_OPERATE, authMode := .group, subjects := none, targets := none, fabIdx := some 1 } ],
+      groups := [ { groupId := 7, endpoints := [0, 1], hasAuxAcl := some true } ] } ]
+def auxReq (aux : Bool) (ep : Nat) : AccessReq :=
+  { accessor := { fabIdx := 1, auxAclEnabled := aux, subjects := [7, 0, 0, 0], authMode := some .group },
+    object := { path := { endpoint := some ep, cluster := some 6, leaf := some 0 }, targetPerms := some 46,
+                operation := WRITE, deviceTypes := [] } }
+/-- feature off: the wildcard Group entry covers the root endpoint; feature on: it does not, but the
+group's auxiliary entry (root endpoint is a member) does; a non-member endpoint 2 is covered by
+the wildcard entry only -/
+example : allow cfgAux (auxReq false 0) = true ∧ allow cfgAux (auxReq true 0) = true ∧
+    fabricsAllow cfgAux (auxReq true 0) true = false ∧ allow cfgAux (auxReq true 2) = true := by decide
+example : Granted cfgAux (auxReq true 0) :=
+  (allow_iff_granted cfgAux _ ⟨by decide, by decide, by decide⟩
+    (by intro f hf e he
+        simp only [cfgAux, List.mem_cons, List.not_mem_nil, or_false] at hf
+        subst hf
+        simp only [List.mem_cons, List.not_mem_nil, or_false] at he
+        subst he; exact ⟨.operate, rfl⟩) ⟨.write, rfl⟩).mp (by decide)
 
 end C05
